@@ -78,6 +78,12 @@ def evaluate(case) -> Verdict:
     msg, plural, count, mctx = case["msg"], case.get("plural"), case.get("count"), case.get("ctx")
     data = dict(VARS)
     n = _count_int(count)
+    # message variables passed as keyword arguments shadow the variables of the same name outside, whatever they hold
+    kwsrc, kwval = [], {}
+    for name, spec in sorted((case.get("kw") or {}).items()):
+        lit, val = {"lit": ("'KW'", "KW"), "nil": ("nil", ""), "undef": ("nosuch", ""), "int": ("5", 5), "var": ("y", VARS["y"])}[spec]
+        kwsrc.append(f"{name}: {lit}")
+        kwval[name] = val
     if kind == "tag":
         # literal text inside the block; {{ x }} stands for a placeholder
         def body(m):
@@ -89,6 +95,7 @@ def evaluate(case) -> Verdict:
             args.append("count: n")
         if mctx is not None:
             args.append(f"context: '{mctx}'")
+        args.extend(kwsrc)
         src = "{% translate " + ", ".join(args) + " %}" + body(msg)
         if plural is not None:
             src += "{% plural %}" + body(plural)
@@ -97,7 +104,7 @@ def evaluate(case) -> Verdict:
         if plural is not None:
             chosen = NULL.ngettext(msg, plural, 1 if n is None else n)
         # in the tag every % of the literal text is literal text
-        want = {_ws(re.sub(r"%\((x|y)\)s", lambda m: str(VARS[m.group(1)]), chosen))}
+        want = {_ws(re.sub(r"%\((x|y)\)s", lambda m: str({**VARS, **kwval}[m.group(1)]), chosen))}
         norm = _ws
     else:
         form = case.get("form", "var")
@@ -119,31 +126,32 @@ def evaluate(case) -> Verdict:
                 args.append("plural: p")
             if count is not None:
                 args.append("count: n")
+            args.extend(kwsrc)
             src = "{{ " + left + " | t" + (": " + ", ".join(args) if args else "") + " }}"
             chosen = msg
             if plural is not None and n is not None:
                 chosen = NULL.ngettext(msg, plural, n)
         elif kind == "gettext":
-            src = "{{ " + left + " | gettext }}"
+            src = "{{ " + left + " | gettext" + (": " + ", ".join(kwsrc) if kwsrc else "") + " }}"
             chosen = msg
         elif kind == "pgettext":
-            src = "{{ " + left + " | pgettext: '" + (mctx or "c") + "' }}"
+            src = "{{ " + left + " | pgettext: '" + (mctx or "c") + "'" + "".join(", " + k for k in kwsrc) + " }}"
             chosen = msg
         elif kind == "ngettext":
             if plural is None or count is None:
                 return v
-            src = "{{ " + left + " | ngettext: p, n }}"
+            src = "{{ " + left + " | ngettext: p, n" + "".join(", " + k for k in kwsrc) + " }}"
             chosen = NULL.ngettext(msg, plural, n)
         elif kind == "npgettext":
             if plural is None or count is None:
                 return v
-            src = "{{ " + left + " | npgettext: '" + (mctx or "c") + "', p, n }}"
+            src = "{{ " + left + " | npgettext: '" + (mctx or "c") + "', p, n" + "".join(", " + k for k in kwsrc) + " }}"
             chosen = NULL.ngettext(msg, plural, n)
         else:
             raise core.HarnessError(kind)
         # the t filter's keyword arguments are message variables: %(count)s is the count exactly as it was passed
-        extra = {"count": count} if kind == "t" and count is not None else None
-        want = _expected_texts(chosen, extra)
+        extra = {"count": count} if kind == "t" and count is not None else {}
+        want = _expected_texts(chosen, {**extra, **kwval})
         norm = lambda s: s  # noqa: E731
 
     o = oc.render(case, lambda: env.from_string(src), **data)
@@ -186,6 +194,10 @@ def cases(draw):
         case["count"] = r.choice(COUNTS)
     if r.random() < 0.3:
         case["ctx"] = r.choice(["menu", "c"])
+    if r.random() < 0.35:
+        case["kw"] = {name: r.choice(["lit", "nil", "nil", "undef", "int", "var"]) for name in r.sample(["x", "y"], r.choice([1, 1, 2]))}
+        if r.random() < 0.7:
+            case["msg"] += r.choice(["%(x)s", "%(y)s", " %(x)s %(y)s"])
     if kind == "tag":
         # markup delimiters cannot be literal text of a block
         for k in ("msg", "plural"):
